@@ -51,7 +51,7 @@ func cmdDump(args []string) int {
 			if filter == "" || fname(f) != filter {
 				continue
 			}
-			ps, trunc := c.Paths(f, PXConfig{SkipErrEdges: true, Opaque: func(g *ssa.Function) bool {
+			ps, trunc := c.Paths(f, PXConfig{SkipErrEdges: os.Getenv("JENLINT_ERR") == "", MaxDepth: 5, Opaque: func(g *ssa.Function) bool {
 				for _, r := range append(c.codeImpls(c.renderName()), c.codeImpls(c.nullName())...) {
 					if r == g {
 						return true
